@@ -76,7 +76,7 @@ theorem rt_struct_decode (uo : UOpts) (fs : List (Bytes × GoType)) (hnd : (akey
     (mem : List (Bytes × JTree)) (fvs' : List (Bytes × GoVal))
     (hk : akeys mem = akeys fs) (hk' : akeys fvs' = akeys fs)
     (hall : ∀ n t, (n, t) ∈ fs → ∃ j w, (n, j) ∈ mem ∧ (n, w) ∈ fvs' ∧ unm uo t j t.zero = .ok w) :
-    objFold (fieldDec uo fs) (fieldZero fs) mem [] (GoType.zeroFields fs) = .ok fvs' := by
+    objFold uo (fieldDec uo fs) (fieldZero fs) mem [] (GoType.zeroFields fs) = .ok fvs' := by
   have hndm : (akeys mem).Nodup := hk ▸ hnd
   have hndv : (akeys fvs').Nodup := hk' ▸ hnd
   apply objFold_of_facts hndm (by intro n _ h; cases h) (by rw [akeys_zeroFields]; exact hnd)
@@ -124,7 +124,7 @@ theorem rt_all (o : MOpts) (uo : UOpts) : ∀ T : GoType, T.wf = true → ∀ v,
       simp only [Bool.and_eq_true, decide_eq_true_eq] at ht
       simp only [mar, Except.ok.injEq] at h; subst h
       refine ⟨.int i, ?_, (by intro _; simp [veq]), rfl, by simp [hasType, ht]⟩
-      simp only [unm]; exact unmInt_intDigits b i ht.1.2 ht.2
+      simp only [unm]; exact unmInt_intDigits uo b i ht.1.2 ht.2
   | huint b =>
     intro _ v j ht h
     cases v <;> simp only [hasType] at ht <;> try (cases ht; done)
@@ -132,7 +132,7 @@ theorem rt_all (o : MOpts) (uo : UOpts) : ∀ T : GoType, T.wf = true → ∀ v,
       simp only [decide_eq_true_eq] at ht
       simp only [mar, Except.ok.injEq] at h; subst h
       refine ⟨.uint n, ?_, (by intro _; simp [veq]), rfl, by simp [hasType, ht]⟩
-      simp only [unm]; exact unmUint_natDigits b n ht
+      simp only [unm]; exact unmUint_natDigits uo b n ht
   | hfloat =>
     intro _ v j ht h
     cases v <;> simp only [hasType] at ht <;> try (cases ht; done)
@@ -149,7 +149,7 @@ theorem rt_all (o : MOpts) (uo : UOpts) : ∀ T : GoType, T.wf = true → ∀ v,
     intro _ v j ht h
     simp only [hasType] at ht
     simp only [mar] at h
-    obtain ⟨v', h1, h2, h3, h4⟩ := rt_any o v j ht h
+    obtain ⟨v', h1, h2, h3, h4⟩ := rt_any o uo v j ht h
     exact ⟨v', by simpa [unm, GoType.zero] using h1, h2, by simpa [mar] using h3, by simpa [hasType] using h4⟩
   | hslice t ih =>
     intro hwf v j ht h
@@ -215,7 +215,7 @@ theorem rt_all (o : MOpts) (uo : UOpts) : ∀ T : GoType, T.wf = true → ∀ v,
       | error e => simp [hl] at h
       | ok mem =>
         simp only [hl, Except.ok.injEq] at h; subst h
-        obtain ⟨m', h1, h2, h3, h4, h5⟩ := rt_map (o := o) (mdec := unm uo t) (z := t.zero) (ty := hasType t) ms
+        obtain ⟨m', h1, h2, h3, h4, h5⟩ := rt_map (o := o) (uo := uo) (mdec := unm uo t) (z := t.zero) (ty := hasType t) ms
           (fun k v _ => ih hwt v) ht.1 (fun k v hv => by have := ht.2 (k, v) hv; simp at this; exact this.2) mem hl
         refine ⟨.mapOf m', by simp [unm, GoType.zero, h1],
           (by intro hs; simp only [safe, safeM_iff] at hs; simpa [veq] using ⟨h2.1, h2.2 hs⟩),
